@@ -187,3 +187,9 @@ _r3("C18", "the Python layer regenerated too (translator/tr_infopy.py: joint_cou
 _r3("C04", "eq_probs' ARPACK handling (stationarity guard and the ArpackNoConvergence handler, both falling back to the dense solver) regenerated as a `try_noconv` combinator and proved",
     "for sparse T the result is the dense solver's vector whenever ARPACK fails to converge or returns a non-stationary vector; for dense T nothing changes; other solver failures are raised (53 theorems).",
     "")
+_r3("C02", "shortcut = plain also proved for initial centres that are not frames (Proof/ClusterVirt.v: supplied centres as virtual frames of the distance oracle)",
+    "c02_shortcut_same_result_any_initial_centers: for any non-empty list of initial centres (non-frames, repeats) the shortcut run equals the plain run; labels and distances stay consistent with the supplied centres.",
+    "the 2-approximation is not demanded for non-frame centres; an initial centre that attracts no frame is a known finding (empty-initial-centre).")
+_r3("C05", "paired index lists are broadcast in the model and in the regenerated text (gen_c2_pairs = bpairs); streams over index dtypes, memory layout, mixed-dtype and object-dtype rows",
+    "Pairs rs [c] = PairsScalar, Pairs [r] cs = ElemList, unequal non-broadcastable lengths raise (52 theorems).",
+    "mixed-dtype and object-dtype streams are judged by the oracle only (typed values are outside the Z-valued Coq model).")
